@@ -61,6 +61,19 @@ def seed_env() -> int:
 # ------------------------------------------------------------------ shard entry
 
 
+def get_parts(mod: Any, tier: str) -> Any:
+    """The module's parts; in the thorough tier every generated part gets VERIF_THOROUGH_SCALE (default 3) times the
+    examples its module asks for (the modules' own numbers were sized for a few minutes per property on 16 cores)."""
+    parts = mod.parts(tier)
+    if tier == "thorough":
+        scale = max(1, int(os.environ.get("VERIF_THOROUGH_SCALE", "3") or 3))
+        for p in parts:
+            if p.kind in ("given", "machine") and p.examples:
+                p.examples = int(p.examples) * scale
+                p.soft_deadline_s = max(int(p.soft_deadline_s or 0), 3600)
+    return parts
+
+
 def shard_main(argv: List[str]) -> int:
     pid, part_name, shard, nshards, tier, seed, out_path = argv
     shard, nshards, seed = int(shard), int(nshards), int(seed)
@@ -70,7 +83,7 @@ def shard_main(argv: List[str]) -> int:
     rec = Recorder()
     try:
         mod = load_mod(pid)
-        part = next(p for p in mod.parts(tier) if p.name == part_name)
+        part = next(p for p in get_parts(mod, tier) if p.name == part_name)
         ctx = Ctx(pid=pid, part=part, shard=shard, nshards=nshards, seed=derive_seed(seed, pid, part_name, shard),
                   tier=tier, rec=rec, mod=mod, known_open=open_findings(pid))
         if part.soft_deadline_s:
@@ -182,7 +195,7 @@ def check_main(pid: str, tier: str) -> int:
             violations.append(rp_path)
 
     # 3. generated search, sharded
-    parts = mod.parts(tier)
+    parts = get_parts(mod, tier)
     jobs = []
     tmpdir = os.path.join(ROOT, ".shards", f"{pid}-{os.getpid()}")
     os.makedirs(tmpdir, exist_ok=True)
